@@ -30,18 +30,21 @@ Bases == {Base, MirrorBase, FrozenBase, RichBase}
 
 Groups == <<KeyGroup, WindowGroup, DelayGroup, RejectGroup, EkuGroup, StorageGroup, IdentGroup>>
 
-\* every pair of field groups in full product, the rest as in a base
-Pairs(b) == UNION {{Override(b, x @@ y) : x \in Groups[p[1]], y \in Groups[p[2]]} :
-                      p \in {q \in (1..7) \X (1..7) : q[1] < q[2]}}
-Triple(b, G1, G2, G3) == {Override(b, x @@ y @@ z) : x \in G1, y \in G2, z \in G3}
+\* The case set: every pair of field groups in full product with the rest as in a base, and some triples.
+\* Written as a disjunction of existentials (TLC enumerates it as initial states and removes duplicates by
+\* fingerprint; a UNION of large sets costs quadratic time in TLC).
+GroupPairs == {q \in (1..7) \X (1..7) : q[1] < q[2]}
 RejectEku == {x @@ y : x \in RejectGroup, y \in EkuGroup}
-
-SingleCases ==
-  UNION {Pairs(b) : b \in Bases}
-    \cup Triple(Base, KeyGroup, WindowGroup, DelayGroup)
-    \cup Triple(Base, KeyGroup, StorageGroup, RejectEku)
-    \cup Triple(Base, KeyGroup, StorageGroup, IdentGroup)
-    \cup Triple(RichBase, WindowGroup, DelayGroup, StorageGroup)
+Triple(b, G1, G2, G3) == \E x \in G1, y \in G2, z \in G3 : c = Override(b, x @@ y @@ z)
+IsSingleCase ==
+  \/ \E b \in Bases, p \in GroupPairs : \E x \in Groups[p[1]], y \in Groups[p[2]] : c = Override(b, x @@ y)
+  \/ Triple(Base, KeyGroup, WindowGroup, DelayGroup)
+  \/ Triple(Base, KeyGroup, StorageGroup, RejectEku)
+  \/ Triple(Base, KeyGroup, StorageGroup, IdentGroup)
+  \/ Triple(Base, KeyGroup, IdentGroup, RejectEku)
+  \/ Triple(Base, KeyGroup, DelayGroup, StorageGroup)
+  \/ Triple(Base, KeyGroup, WindowGroup, StorageGroup)
+  \/ Triple(RichBase, WindowGroup, DelayGroup, StorageGroup)
 
 AllFields == DOMAIN Base
 TypeOKSingle == DOMAIN c = AllFields
@@ -74,9 +77,14 @@ Dummy == /\ kind = [isMirror |-> FALSE, isReadonly |-> FALSE, frozen |-> FALSE]
 
 Failed(x) == LET k == Clauses(x) IN {f \in DOMAIN k : ~k[f]}
 
-InitSingle == c \in SingleCases /\ Dummy
+InitSingle == IsSingleCase /\ Dummy
 Stay == UNCHANGED vars
+\* the same config as a one-element set and as a one-log multi-config (as ToMultiLogConfig wraps it)
+AsMulti(x) == [bPresent |-> TRUE, backends |-> <<[name |-> "default", spec |-> "spec"]>>, lPresent |-> TRUE,
+               logs |-> <<[x EXCEPT !.backendName = "default"]>>]
+FailedIn(k) == {f \in DOMAIN k : ~k[f]}
 ExportSingle == PrintT(<<"CASE", ToJson([c |-> c, valid |-> Valid(c), failed |-> Failed(c),
+                                         validAsSet |-> ValidSet(<<c>>), validAsMulti |-> ValidMulti(AsMulti(c)),
                                          handlers |-> IF Valid(c) THEN Handlers(c) ELSE {}])>>)
 
 (* --- random draws from the full product of field states (seeded simulation) --- *)
@@ -108,24 +116,32 @@ ExportDraw == c # None => (TextMatchesCode /\ ExportSingle)
 SetLogs == {Override(Base, r) : r \in [logId : {0, 1, 2}, prefix : PrefixStates, privKey : {"ok", "absent"}]}
 SeqsUpTo2(S) == {<<>>} \cup {<<x>> : x \in S} \cup {<<x, y>> : x \in S, y \in S}
 InitSet == c \in SeqsUpTo2(SetLogs) /\ Dummy
-ExportSet == PrintT(<<"SETCASE", ToJson([logs |-> c, valid |-> ValidSet(c), loadable |-> LoadableSet(c)])>>)
+ExportSet == PrintT(<<"SETCASE", ToJson([logs |-> c, valid |-> ValidSet(c), failed |-> FailedIn(SetClauses(c)),
+                                           loadable |-> LoadableSet(c)])>>)
 
 (* --- multi-configs (ValidateLogMultiConfig) --- *)
-MultiLogs == {Override(Base, r) : r \in [logId : {1, 2}, prefix : PrefixStates, backendName : {"", "A", "B"},
-                                         privKey : {"ok", "absent"}]}
+\* the log configs of a multi-config vary in four fields, the rest is Base
+SlimLogs == [logId : {1, 2}, prefix : PrefixStates, backendName : {"", "A", "B"}, privKey : {"ok", "absent"}]
 BackendRecs == [name : {"", "A", "B"}, spec : {"", "s1", "s2"}]
-MultiCases ==
-  {[bPresent |-> bp, backends |-> bs, lPresent |-> lp, logs |-> ls] :
-      bp \in BOOLEAN, lp \in BOOLEAN, bs \in SeqsUpTo2(BackendRecs), ls \in SeqsUpTo2(MultiLogs)}
-\* an absent message has no elements
+\* a set of records (enumerated lazily by TLC); an absent message has no elements
+MultiCases == [bPresent : BOOLEAN, backends : SeqsUpTo2(BackendRecs), lPresent : BOOLEAN, logs : SeqsUpTo2(SlimLogs)]
 WellFormedCase(m) == (~m.bPresent => m.backends = <<>>) /\ (~m.lPresent => m.logs = <<>>)
-InitMulti == c \in {m \in MultiCases : WellFormedCase(m)} /\ Dummy
-ExportMulti == PrintT(<<"MULTICASE", ToJson([m |-> c, valid |-> ValidMulti(c), loadable |-> LoadableMulti(c)])>>)
+FullMulti(m) == [m EXCEPT !.logs = [i \in 1..Len(m.logs) |-> Override(Base, m.logs[i])]]
+InitMulti == c \in MultiCases /\ WellFormedCase(c) /\ Dummy
+ExportMulti == PrintT(<<"MULTICASE", ToJson([m |-> c, valid |-> ValidMulti(FullMulti(c)),
+                                               failed |-> FailedIn(MultiClauses(FullMulti(c))), loadable |-> LoadableMulti(c)])>>)
+ASSUME PrintT(<<"BASE", ToJson(Base)>>)
 
-\* tree IDs need only be unique per backend: two logs with one tree ID on different backends pass
-\* ValidMulti though they would not pass ValidSet (sanity of the specification itself)
-MultiSanity == ValidMulti(c) => /\ \A i \in 1..Len(c.logs) : Valid(c.logs[i])
-                                /\ Len(c.logs) > 0 => Len(c.backends) > 0
+\* sanity of the specification itself
+MultiSanity == LET m == FullMulti(c) IN
+               ValidMulti(m) => /\ \A i \in 1..Len(m.logs) : Valid(m.logs[i])
+                                /\ Len(m.logs) > 0 => Len(m.backends) > 0
+\* tree IDs need only be unique per backend: the multi form accepts what the single-backend form refuses
+PerBackendWitness ==
+  LET m == [bPresent |-> TRUE, backends |-> <<[name |-> "A", spec |-> "s1"], [name |-> "B", spec |-> "s2"]>>, lPresent |-> TRUE,
+            logs |-> <<Override(Base, [backendName |-> "A"]), Override(Base, [backendName |-> "B", prefix |-> "b"])>>]
+  IN ValidMulti(m) /\ ~ValidSet(m.logs)
+ASSUME PerBackendWitness
 
 (* ------------------------------------------------------------------------ *)
 (* Part 2: the instance                                                     *)
@@ -147,7 +163,7 @@ SimStep ==
   /\ UNCHANGED c
   /\ \E r \in {RandomElement(1..10)}, n \in {RandomElement(1..2)}, s \in {RandomElement(0..MaxSize)} :
         IF r <= 3 /\ backend + n <= MaxSize THEN Grow(n)
-        ELSE IF r <= 6 /\ kind.isMirror /\ s \notin source THEN Learn(s)
+        ELSE IF r <= 7 /\ kind.isMirror /\ s \notin source THEN Learn(s)
         ELSE Get
 SimNext == SimStep \/ Finish
 ExportFinished == (Len(hist) = Depth + 1) => PrintT(<<"BEH", ToJson([kind |-> kind, steps |-> SubSeq(hist, 1, Depth)])>>)
